@@ -26,6 +26,8 @@ fn families(prop: &str, tier: &str) -> Option<Vec<Family>> {
         "C17" => props::c17(tier),
         "C18" => props::c18(tier),
         "C19" => props::c19(tier),
+        // The scheduler queue as the simulation uses it: FIFO among equal (time, origin) keys.
+        "C20" => props::c07(tier).into_iter().filter(|f| f.name == "driver_origin" || f.name == "model_origin" || f.name == "abs_and_rel").collect(),
         _ => return None,
     })
 }
